@@ -154,6 +154,16 @@ func checkCmd(args []string) int {
 	case "C15":
 		cr.CheckGeneratorSafety(os.Getenv("GOAGVC_RECORD") != "")
 		return cr.Finish("proof", checkerCmd, commonTrusted, "one obligation per instruction that can panic (nil dereference, nil map write, index/slice bounds, failed type assertion, explicit panic, nil func/interface call) and per thin-contract clause (requires at call sites, ensures at returns) in every function of goag, generator, specification and cmd/goag; all inputs; obligations listed in baseline/C15-unproved.json are not claimed")
+	case "C18":
+		entries := vc.FixtureCorpus(*repo, "components_params", "response_component", "components")
+		entries = append(entries, vc.ResponseCorpus(corpusDir)[:1]...)
+		entries = append(entries, vc.ParamCorpus(corpusDir)[:1]...)
+		if *tier != "quick" {
+			entries = vc.FixtureCorpus(*repo)
+			entries = append(entries, vc.ResponseCorpus(corpusDir)...)
+		}
+		cr.CheckTwins(entries, corpusDir)
+		return cr.Finish("proof", checkerCmd, commonTrusted, "per pair ($ref spec, mechanically inlined twin): both generate, identical dereferenced contract instance, and every Layer E obligation (routing, security, params, Write, client) has the same verdict in both forms")
 	case "C19":
 		cr.CheckFS()
 		return cr.Finish("proof", checkerCmd, commonTrusted, "one obligation per (function, return site, ensures clause) of WriteToFile / RenderToFile / Generate over the ghost file system, plus the call-graph scan for file-system writers; all pre-states and invocations are quantified")
